@@ -100,7 +100,12 @@ def shard(ctx):
     while not ctx.out_of_time():
         rng = ctx.rng(i)
         i += ctx.nshards
-        if rng.random() < 0.8:
+        r0 = rng.random()
+        if r0 < 0.3:
+            prog = G.gen_deep_cascade(rng)
+            src = G.render(prog)
+            w = {"files": {"main.asm": src}, "roots": ["main.asm"], "std": False, "tag": "deep", "kind": "deep"}
+        elif r0 < 0.8:
             prog = G.gen_program(rng, cascade=True, faults=False, n_items=rng.randint(4, 30))
             src = G.render(prog, split=workload.random_split(rng, len(prog["isa"]["rules"])))
             w = {"files": {"main.asm": src}, "roots": ["main.asm"], "std": False, "tag": "casc", "kind": "casc"}
